@@ -21,16 +21,16 @@ package c14
 // explains) so that the comparison can name the failing class.
 
 import (
-	"bytes"
 	"fmt"
 	"strconv"
 	"strings"
+	"unsafe"
 
 	"verif/ref"
 )
 
 type parser struct {
-	s []byte
+	s string // zero-copy view of the rendered text (never modified afterwards)
 	p int
 }
 
@@ -46,7 +46,7 @@ func (p *parser) fail(format string, a ...interface{}) error {
 }
 
 func (p *parser) has(lit string) bool {
-	return len(p.s)-p.p >= len(lit) && string(p.s[p.p:p.p+len(lit)]) == lit
+	return strings.HasPrefix(p.s[p.p:], lit)
 }
 
 func (p *parser) eat(lit string) bool {
@@ -60,18 +60,21 @@ func (p *parser) eat(lit string) bool {
 // quoted reads bytes up to the next single quote (the opening quote is
 // already consumed) and consumes the closing quote.
 func (p *parser) quoted() (string, error) {
-	i := bytes.IndexByte(p.s[p.p:], '\'')
+	i := strings.IndexByte(p.s[p.p:], '\'')
 	if i < 0 {
 		return "", p.fail("unterminated quoted text")
 	}
-	s := string(p.s[p.p : p.p+i])
+	s := p.s[p.p : p.p+i]
 	p.p += i + 1
 	return s, nil
 }
 
 // Parse reads a complete rendered cell.
 func Parse(txt []byte) (*ref.JDoc, error) {
-	p := &parser{s: txt}
+	p := &parser{}
+	if len(txt) > 0 {
+		p.s = unsafe.String(&txt[0], len(txt))
+	}
 	var d *ref.JDoc
 	var err error
 	switch {
@@ -85,15 +88,15 @@ func Parse(txt []byte) (*ref.JDoc, error) {
 			err = p.fail("expected \" AS JSON)\"")
 		}
 	case len(txt) >= 2 && txt[0] == '\'' && txt[len(txt)-1] == '\'':
-		in := txt[1 : len(txt)-1]
-		if bytes.IndexByte(in, '\'') >= 0 {
+		in := p.s[1 : len(txt)-1]
+		if strings.IndexByte(in, '\'') >= 0 {
 			return nil, p.fail("quote inside the top-level scalar")
 		}
 		p.p = len(txt)
 		if len(in) >= 2 && in[0] == '"' && in[len(in)-1] == '"' {
-			d = ref.JS(string(in[1 : len(in)-1]))
+			d = ref.JS(in[1 : len(in)-1])
 		} else {
-			d, err = scalarToken(string(in))
+			d, err = scalarToken(in)
 			if err != nil {
 				err = &parseError{1, err.Error()}
 			}
@@ -105,7 +108,7 @@ func Parse(txt []byte) (*ref.JDoc, error) {
 		return nil, err
 	}
 	if p.p != len(txt) {
-		return nil, p.fail("trailing text %q", clip(string(txt[p.p:])))
+		return nil, p.fail("trailing text %q", clip(p.s[p.p:]))
 	}
 	return d, nil
 }
@@ -265,11 +268,11 @@ func (p *parser) value(depth int) (*ref.JDoc, error) {
 		case p.eat("TIME(6))"):
 			return readTime(txt), nil
 		case p.eat("DECIMAL("):
-			i := bytes.IndexByte(p.s[p.p:], ')')
+			i := strings.IndexByte(p.s[p.p:], ')')
 			if i < 0 {
 				return nil, p.fail("unterminated DECIMAL(")
 			}
-			ps := strings.Split(string(p.s[p.p:p.p+i]), ",")
+			ps := strings.Split(p.s[p.p:p.p+i], ",")
 			if len(ps) != 2 || !isDigits(ps[0]) || !isDigits(ps[1]) || len(ps[0]) > 3 || len(ps[1]) > 3 {
 				return nil, p.fail("bad DECIMAL(precision,scale)")
 			}
@@ -290,11 +293,11 @@ func (p *parser) value(depth int) (*ref.JDoc, error) {
 		return ref.JS(s), nil
 	}
 	// bare token up to ',' or ')'
-	i := bytes.IndexAny(p.s[p.p:], ",)")
+	i := strings.IndexAny(p.s[p.p:], ",)")
 	if i < 0 {
 		i = len(p.s) - p.p
 	}
-	d, err := scalarToken(string(p.s[p.p : p.p+i]))
+	d, err := scalarToken(p.s[p.p : p.p+i])
 	if err != nil {
 		return nil, p.fail("%v", err)
 	}
